@@ -159,7 +159,15 @@ func (e *FEnc) instr(st *State, b *ssa.BasicBlock, idx int, in ssa.Instruction) 
 	case *ssa.Call:
 		e.call(st, x, x.Common(), x)
 	case *ssa.Defer:
-		// effect happens at RunDefers; arguments may leak now
+		// effect happens at RunDefers; arguments may leak now. A clause can speak about the point where something is
+		// deferred: at-call defer:<callee> (the literal's name for a deferred function literal)
+		{
+			var dargs []*Val
+			for _, a := range x.Call.Args {
+				dargs = append(dargs, e.valOf(a))
+			}
+			e.atCall(st, in, "defer:"+calleeName(&x.Call), dargs, nil)
+		}
 		for _, a := range x.Call.Args {
 			e.leakVal(e.valOf(a))
 		}
